@@ -186,6 +186,10 @@ func checkC15(c *Ctx, r *Result, tier string) {
 			ifuncs, func(*ssa.Function) string { return "" })
 	}
 	r.Floor("R15c", total, 40)
+
+	// ---- R15d: the debugger lock is never re-acquired while held -------------------------------
+	nRe := checkReentrance(c, r, lfs, "R15d", func(class string) bool { return strings.HasPrefix(class, "interpreter.ecalDebugger") })
+	r.Extra["reentrance_call_sites"] = nRe
 }
 
 func c15NilOrVisit(v ssa.Value, visit map[*ssa.Function]bool, d int) bool {
